@@ -9,7 +9,7 @@
 (* Reset lines, which rebuild M from the abstract descriptor with the      *)
 (* specification's own generator model.                                    *)
 (***************************************************************************)
-EXTENDS Judge, Json, IOUtils, TLCExt
+EXTENDS Judge, GenContract, Json, IOUtils, TLCExt
 
 TraceLog == ndJsonDeserialize(IOEnv.VERIF_TRACE)
 
@@ -21,9 +21,15 @@ VARIABLES l,      \* next line to consume
           tt,     \* Terraform type of the REAL schema
           ev,     \* properties to evaluate for this behaviour
           obj, tf,\* the session state: Go struct value and Terraform object (REAL, as recorded)
-          aux     \* history for the relational clauses (Judge.tla)
+          aux,    \* history for the relational clauses (Judge.tla)
+          gm,     \* group memory: [grp, s: key |-> string, sch: key |-> schema] (same key => same value in a group)
+          pm,     \* pair memory: key |-> sequence of recorded post-states of the base behaviour
+          pr      \* pairing of the current behaviour: [key, role, clause, maskattrs, maskfields, step]
 
-vars == <<l, bid, shp, ok, M, tt, ev, obj, tf, aux>>
+vars == <<l, bid, shp, ok, M, tt, ev, obj, tf, aux, gm, pm, pr>>
+
+NoGM == [grp |-> "", s |-> EmptyFn, sch |-> EmptyFn]
+NoPR == [key |-> "", role |-> "", clause |-> "", prop |-> "", maskattrs |-> <<>>, maskfields |-> <<>>, step |-> 0]
 
 Line == TraceLog[l]
 NilObject == VObj(FALSE, FALSE, EmptyFn, EmptyFn, TRUE)
@@ -58,34 +64,110 @@ Wanted == {ev[i] : i \in DOMAIN ev}
 
 Init ==
   /\ l = 1 /\ bid = "" /\ shp = "" /\ ok = FALSE /\ M = NoBuilt /\ tt = TNone /\ ev = <<>>
-  /\ obj = Nil /\ tf = NilObject /\ aux = NoAux
+  /\ obj = Nil /\ tf = NilObject /\ aux = NoAux /\ gm = NoGM /\ pm = EmptyFn /\ pr = NoPR
   /\ TLCSet(2, 0) /\ TLCSet(3, 0)
 
 IsEvent(e) == l <= Len(TraceLog) /\ Line.ev = e /\ l' = l + 1
 
 SchemaTT(schema) == TObj([n \in DOMAIN schema.attrs |-> schema.attrs[n].type])
 
+\* ---- relational clauses over the runs of a group: the same key must carry the same value
+\* entries this run contributes: <<key, value, clause>>
+GroupEntries(meta, gen, schema, d, cfg) ==
+  UNION {
+    LET gc == meta.gchecks[i]
+    IN CASE gc.k = "fn" -> {<<"fn:" \o gen.funcs[j].name, gen.funcs[j].sha, gc.c>> : j \in {x \in DOMAIN gen.funcs : ~gen.funcs[x].method}}
+         [] gc.k = "sha" -> {<<"sha", gen.sha, gc.c>>}
+         [] gc.k = "content" -> {<<"content", gen.contentsha, gc.c>>}
+         [] OTHER -> {}
+    : i \in DOMAIN meta.gchecks }
+
+GroupViol(mem, entries) == {VG(e[3], e[1]) : e \in {x \in entries : x[1] \in DOMAIN mem.s /\ mem.s[x[1]] # x[2]}}
+RECURSIVE PutAll(_, _)
+PutAll(f, es) == IF es = {} THEN f ELSE LET e == CHOOSE x \in es : TRUE IN PutAll(IF e[1] \in DOMAIN f THEN f ELSE Put(f, e[1], e[2]), es \ {e})
+
+SchemaChecks(meta) == {meta.gchecks[i].c : i \in {j \in DOMAIN meta.gchecks : meta.gchecks[j].k = "schema"}}
+
 TraceReset ==
   /\ IsEvent("Reset")
-  /\ LET b == BuildRoot(Line.meta.d, Line.meta.cfg, Line.meta.root)
+  /\ LET meta == Line.meta
+         d == meta.d
+         cfg == meta.cfg
+         gen == meta.gen
+         W == {meta.eval[i] : i \in DOMAIN meta.eval}
+         b == BuildRoot(d, cfg, meta.root)
+         reg == Line.registered /\ b.ok
+         mem == IF meta.group # "" /\ meta.group = gm.grp THEN gm ELSE [NoGM EXCEPT !.grp = meta.group]
+         entries == IF meta.group = "" THEN {} ELSE GroupEntries(meta, gen, Line.schema, d, cfg)
+         skey == "schema:" \o meta.root
+         schViol == IF meta.group # "" /\ reg /\ SchemaChecks(meta) # {} /\ skey \in DOMAIN mem.sch /\ mem.sch[skey] # Line.schema
+                    THEN {VG(c, meta.root) : c \in SchemaChecks(meta)} ELSE {}
+         sd == IF reg THEN SchemaDiff(b.m, Line.schema.attrs) ELSE {}
+         viol == (IF "C01" \in W THEN C01Run(d, cfg, gen) ELSE {})
+            \cup (IF "C12" \in W THEN C12Exact(d, cfg, gen) ELSE {})
+            \cup (IF "C18" \in W THEN C18Run(d, cfg, gen) ELSE {})
+            \cup (IF "C16" \in W THEN C16Fault(cfg, gen) ELSE {})
+            \cup (IF "C02" \in W THEN C02Of(sd) ELSE {})
+            \cup (IF "C10" \in W THEN C10Of(sd) ELSE {})
+            \cup (IF "C11" \in W THEN {[x EXCEPT !.sig = x.c \o " " \o @, !.c = "C11.only_addressed"] : x \in sd} ELSE {})
+            \cup (IF "C17" \in W THEN {[x EXCEPT !.c = "C17.schema_call"] : x \in {y \in sd : y.sig # "" /\ \E i \in DOMAIN b.m.fields : b.m.fields[i].kind = "custom" /\ b.m.fields[i].path = y.p}} ELSE {})
+            \cup GroupViol(mem, entries) \cup schViol
      IN /\ bid' = Line.id
-        /\ shp' = Line.meta.shape
-        /\ ok' = (Line.registered /\ b.ok)
+        /\ shp' = meta.shape
+        /\ ok' = reg
         /\ M' = b.m
         /\ tt' = SchemaTT(Line.schema)
-        /\ ev' = Line.meta.eval
+        /\ ev' = meta.eval
         /\ obj' = b.m.zero
         /\ tf' = NilObject
         \* pairwise memory (C05) survives from behaviour to behaviour of the same shape
-        /\ aux' = IF Line.meta.shape = shp THEN [NoAux EXCEPT !.memo = aux.memo] ELSE NoAux
-        /\ ReportE({}, b.ok /\ Line.registered /\ SchemaTT(Line.schema) # b.m.tt, "schema type vs model", {})
+        /\ aux' = IF meta.shape = shp THEN [NoAux EXCEPT !.memo = aux.memo] ELSE NoAux
+        /\ gm' = [mem EXCEPT !.s = PutAll(@, {<<e[1], e[2]>> : e \in entries}),
+                             !.sch = IF reg /\ SchemaChecks(meta) # {} /\ skey \notin DOMAIN @ THEN Put(@, skey, Line.schema) ELSE @]
+        /\ pm' = IF meta.group # "" /\ meta.group = gm.grp THEN pm ELSE EmptyFn
+        /\ pr' = [key |-> meta.pair.key, role |-> meta.pair.role, clause |-> meta.pair.clause, prop |-> meta.pair.prop,
+                  maskattrs |-> meta.pair.maskattrs, maskfields |-> meta.pair.maskfields, step |-> 0]
+        /\ ReportE(viol, reg /\ SchemaTT(Line.schema) # b.m.tt, "schema type vs model",
+                   {p \in {"C01", "C12", "C18", "C16"} : p \in W} \cup {p \in {"C02", "C10", "C11", "C17"} : p \in W /\ reg}
+                   \cup {meta.gchecks[i].p : i \in DOMAIN meta.gchecks})
+
+\* ---- behaviours paired line by line (same vectors through two generated variants)
+RECURSIVE MaskTT(_, _)
+RECURSIVE MaskT(_, _)
+MaskT(tv, names) ==
+  CASE tv.k = "obj" -> [tv EXCEPT !.attrs = [a \in DOMAIN tv.attrs \ names |-> MaskT(tv.attrs[a], names)],
+                                  !.at = [a \in DOMAIN tv.at \ names |-> MaskTT(tv.at[a], names)]]
+    [] tv.k = "list" -> [tv EXCEPT !.elems = [i \in DOMAIN tv.elems |-> MaskT(tv.elems[i], names)], !.et = MaskTT(tv.et, names)]
+    [] tv.k = "map" -> [tv EXCEPT !.mels = [key \in DOMAIN tv.mels |-> MaskT(tv.mels[key], names)], !.et = MaskTT(tv.et, names)]
+    [] OTHER -> tv
+MaskTT(t, names) ==
+  CASE t.k = "obj" -> [t EXCEPT !.at = [a \in DOMAIN t.at \ names |-> MaskTT(t.at[a], names)]]
+    [] t.k \in {"list", "map"} -> [t EXCEPT !.et = MaskTT(t.et, names)]
+    [] OTHER -> t
+RECURSIVE MaskG(_, _)
+MaskG(g, names) ==
+  CASE g.t = "st" -> St([n \in DOMAIN g.f |-> IF n \in names THEN Nil ELSE MaskG(g.f[n], names)])
+    [] g.t = "ptr" -> Ptr(MaskG(g.p, names))
+    [] g.t = "seq" -> SeqV([i \in DOMAIN g.e |-> MaskG(g.e[i], names)])
+    [] g.t = "map" -> MapV([key \in DOMAIN g.m |-> MaskG(g.m[key], names)])
+    [] g.t = "one" -> One(g.b, MaskG(g.w, names))
+    [] OTHER -> g
+
+PairSnap == [obj |-> MaskG(Line.obj, {pr.maskfields[i] : i \in DOMAIN pr.maskfields}),
+             tf |-> MaskT(Line.tf, {pr.maskattrs[i] : i \in DOMAIN pr.maskattrs}),
+             dg |-> DgSet(Line.diags), pn |-> Line.panic # ""]
 
 \* every other line: an action of the session machine whose post-state is the RECORDED one
 TraceStep(e) ==
   /\ IsEvent(e) /\ ok
   /\ obj' = Line.obj /\ tf' = Line.tf
-  /\ UNCHANGED <<bid, shp, ok, M, tt, ev>>
+  /\ UNCHANGED <<bid, shp, ok, M, tt, ev, gm>>
   /\ LET pn == Line.panic # ""
+         snap == PairSnap
+         k == pr.step + 1
+         pairViol == IF pr.key # "" /\ pr.role = "variant" /\ pr.key \in DOMAIN pm /\ k <= Len(pm[pr.key]) /\ pm[pr.key][k] # snap
+                     THEN {VG(pr.clause, pr.key)} ELSE {}
+         pairEval == IF pr.key # "" /\ pr.role = "variant" /\ pr.key \in DOMAIN pm /\ k <= Len(pm[pr.key]) THEN {pr.prop} ELSE {}
          j == Judge(e, Wanted, M, tt, aux, [pobj |-> obj, ptf |-> tf, obj |-> Line.obj, tf |-> Line.tf, dg |-> Line.diags, pn |-> pn, conv |-> Line.conv])
          toR == ToMsg(M, obj, tf)
          fromR == FromMsg(M, tf, obj)
@@ -100,12 +182,15 @@ TraceStep(e) ==
                                   \/ (~pn /\ (MaskCustomGo(M, 1, Line.obj) # MaskCustomGo(M, 1, fromR.obj) \/ DgSet(Line.diags) # DgSet(fromR.dg)))
              [] OTHER -> FALSE
      IN /\ aux' = j.aux
-        /\ ReportE(j.viol, drift /\ ~("nodrift" \in Wanted), e, j.evald)
+        /\ pr' = [pr EXCEPT !.step = k]
+        /\ pm' = IF pr.key # "" /\ pr.role = "base"
+                  THEN Put(pm, pr.key, IF pr.key \in DOMAIN pm /\ k > 1 THEN Append(pm[pr.key], snap) ELSE <<snap>>) ELSE pm
+        /\ ReportE(j.viol \cup pairViol, drift /\ ~("nodrift" \in Wanted), e, j.evald \cup pairEval)
 
 \* a behaviour whose root type was not generated / did not compile: its lines are skipped
 TraceSkip ==
   /\ l <= Len(TraceLog) /\ Line.ev # "Reset" /\ ~ok /\ l' = l + 1
-  /\ UNCHANGED <<bid, shp, ok, M, tt, ev, obj, tf, aux>>
+  /\ UNCHANGED <<bid, shp, ok, M, tt, ev, obj, tf, aux, gm, pm, pr>>
   /\ TLCSet(2, l)
 
 Next == \/ TraceReset \/ TraceSkip
